@@ -34,6 +34,9 @@ pub enum Op {
     UnwrapPwWrongPassword,
     /// the right password on a copy of the blob whose cost parameters were changed to other valid ones
     UnwrapPwTamperedParams,
+    /// the right password on a copy of the blob whose cost parameters are ones the KDF refuses
+    /// (variant: memory not a KiB multiple / zero passes / zero lanes / zero memory / 2^63 bytes / zero or other iterations)
+    UnwrapPwInvalidParams(u8),
     UnwrapPw,
     SealKey,
     UnsealKey,
@@ -51,6 +54,10 @@ pub enum Op {
 pub struct Plan {
     pub key: KeySeed,
     pub threads: Vec<Vec<Op>>,
+    /// failing operations that ran in this process before the plan (filled in only in a reported
+    /// case, so that its replay starts from the same history; generated plans leave it empty)
+    #[serde(default)]
+    pub prior: Vec<Op>,
 }
 
 fn op_strategy(heavy_ok: bool) -> impl Strategy<Value = Op> {
@@ -68,6 +75,7 @@ fn op_strategy(heavy_ok: bool) -> impl Strategy<Value = Op> {
         1 => Just(Op::UnwrapPw),
         2 => Just(Op::UnwrapPwWrongPassword),
         2 => Just(Op::UnwrapPwTamperedParams),
+        3 => (0u8..6).prop_map(Op::UnwrapPwInvalidParams),
         1 => Just(Op::SealKey),
         1 => Just(Op::UnsealKey),
         1 => Just(Op::UnsealKeyBad),
@@ -85,7 +93,7 @@ fn op_strategy(heavy_ok: bool) -> impl Strategy<Value = Op> {
 
 fn plan_strategy<B: Backend>(max_ops: usize) -> impl Strategy<Value = Plan> {
     let heavy_ok = B::VER != Ver::V1;
-    (gens::key_seed(), prop_oneof![2 => 1usize..=1, 8 => 2usize..=16].prop_flat_map(move |n| proptest::collection::vec(proptest::collection::vec(op_strategy(heavy_ok), 1..max_ops), n..=n))).prop_map(|(key, threads)| Plan { key, threads })
+    (gens::key_seed(), prop_oneof![2 => 1usize..=1, 8 => 2usize..=16].prop_flat_map(move |n| proptest::collection::vec(proptest::collection::vec(op_strategy(heavy_ok), 1..max_ops), n..=n))).prop_map(|(key, threads)| Plan { key, threads, prior: Vec::new() })
 }
 
 struct Shared<B: Backend> {
@@ -108,6 +116,7 @@ struct Expect {
     pie: String,
     pw: String,
     pw_tampered: String,
+    pw_invalid: Vec<String>,
     sealed: String,
     sealed_bad: String,
     lid: String,
@@ -185,6 +194,39 @@ fn mk_expect<B: Backend>(key: &KeySeed) -> Result<Expect, String> {
         }
         format!("{}{}", &pw[..cut], crate::util::b64_encode(&blob))
     };
+    // ... and to values the KDF itself refuses
+    let pw_invalid: Vec<String> = (0..6u8)
+        .map(|variant| {
+            let cut = pw.rfind('.').map(|i| i + 1).unwrap_or(0);
+            let mut blob = crate::util::b64_decode(&pw[cut..]).unwrap_or_default();
+            let sl = crate::refmodel::pbkw_salt_len(B::VER);
+            if B::VER.nist() {
+                // salt | iterations u32
+                if blob.len() > sl + 4 {
+                    let it: u32 = match variant % 3 {
+                        0 => 0,
+                        1 => 3,
+                        _ => 1, // (unchanged cost; the nonce is changed instead)
+                    };
+                    blob[sl..sl + 4].copy_from_slice(&it.to_be_bytes());
+                    if variant % 3 == 2 {
+                        blob[sl + 4] ^= 1;
+                    }
+                }
+            } else if blob.len() > sl + 16 {
+                // salt | mem u64 | time u32 | para u32
+                match variant % 6 {
+                    0 => blob[sl + 7] ^= 1,                                             // memory not a multiple of 1024
+                    1 => blob[sl + 8..sl + 12].fill(0),                                  // zero passes
+                    2 => blob[sl + 12..sl + 16].fill(0),                                 // zero lanes
+                    3 => blob[sl..sl + 8].fill(0),                                       // zero memory
+                    4 => blob[sl..sl + 8].copy_from_slice(&(1u64 << 63).to_be_bytes()), // more KiB than fit u32
+                    _ => blob[sl + 12..sl + 16].copy_from_slice(&2u32.to_be_bytes()),    // two lanes
+                }
+            }
+            format!("{}{}", &pw[..cut], crate::util::b64_encode(&blob))
+        })
+        .collect();
     Ok(Expect {
         signed_bad: signed.iter().enumerate().map(|(i, t)| corrupt(t, i, B::VER.sig_len())).collect(),
         encrypted_bad: encrypted.iter().enumerate().map(|(i, t)| corrupt(t, i, B::VER.local_tag_len())).collect(),
@@ -193,6 +235,7 @@ fn mk_expect<B: Backend>(key: &KeySeed) -> Result<Expect, String> {
         pie: s.sk.clone().wrap_pie(&s.wk).map_err(e)?.to_string(),
         pw,
         pw_tampered,
+        pw_invalid,
         sealed_bad: flip_last(&sealed),
         sealed,
         lid: s.lk.id().to_string(),
@@ -288,6 +331,15 @@ fn exec<B: Backend>(s: &Shared<B>, x: &Expect, op: Op) -> Result<(), String> {
             let w: PasswordWrappedKey<V<B>, Local> = x.pw_tampered.parse().map_err(|e| format!("{e}"))?;
             if w.unwrap(b"hunter2").is_err() { Ok(()) } else { Err("a blob with changed cost parameters unwrapped".into()) }
         }
+        Op::UnwrapPwInvalidParams(v) => {
+            let text = &x.pw_invalid[(v as usize) % x.pw_invalid.len()];
+            match text.parse::<PasswordWrappedKey<V<B>, Local>>() {
+                Err(_) => Ok(()),
+                Ok(w) => {
+                    if w.unwrap(b"hunter2").is_err() { Ok(()) } else { Err("a blob with refused / changed cost parameters unwrapped".into()) }
+                }
+            }
+        }
         Op::SealKey => {
             let sealed = s.lk.clone().seal(&s.pke_pk).map_err(|e| format!("seal failed: {e}"))?;
             let k = sealed.unseal(&s.pke_sk).map_err(|e| format!("unseal of own seal failed: {e}"))?;
@@ -351,26 +403,101 @@ fn exec<B: Backend>(s: &Shared<B>, x: &Expect, op: Op) -> Result<(), String> {
 
 const PROBES: [Op; 12] = [Op::Sign(0), Op::Verify(1), Op::Encrypt(2), Op::Decrypt(3), Op::UnwrapPie, Op::UnwrapPw, Op::Id, Op::Display, Op::PublicKey, Op::CloneUse, Op::VerifyBad(0), Op::DecryptBad(1)];
 
-fn run_plan<B: Backend>(p: &Plan, acc: &mut Acc) -> R {
-    let name = B::NAME;
-    crate::rng::reseed_case(hash_of(p));
-    let expect = Arc::new(mk_expect::<B>(&p.key).map_err(|e| Fail::new(format!("C17/{name}/setup"), e))?);
+fn is_failing(o: &Op) -> bool {
+    matches!(o, Op::VerifyBad(_) | Op::DecryptBad(_) | Op::UnwrapPieWrongKey | Op::UnwrapPwWrongPassword | Op::UnwrapPwTamperedParams | Op::UnwrapPwInvalidParams(_) | Op::UnsealKeyBad | Op::DecryptWrongAssertion(_))
+}
+
+// --- supervision: an operation that never returns -------------------------------------------
+//
+// Every thread of a plan publishes what it is executing; the supervising thread watches a global
+// progress counter.  If nothing completes for STALL seconds, the threads still inside a library
+// call are examined through /proc: a thread that burned CPU for most of the window is spinning, a
+// set of threads that all sleep without consuming CPU is blocked.  Either way the same operations
+// are then executed on a fresh copy of the keys in a fresh process (the control): only if they
+// return there promptly is the non-return attributed to the history (a violation: "operations
+// after any history of failures give the same results as on a fresh copy"); everything else -
+// a slow machine, a control that stalls too - is reported as inconclusive.
+
+struct Busy {
+    tid: u32,
+    what: String,
+    op: Option<Op>,
+}
+
+struct Progress {
+    counter: std::sync::atomic::AtomicU64,
+    slots: std::sync::Mutex<Vec<Option<Busy>>>,
+}
+
+impl Progress {
+    fn enter(&self, slot: usize, what: String, op: Option<Op>) {
+        let mut g = self.slots.lock().unwrap();
+        g[slot] = Some(Busy { tid: my_tid(), what, op });
+    }
+    fn leave(&self, slot: usize) {
+        self.slots.lock().unwrap()[slot] = None;
+        self.counter.fetch_add(1, std::sync::atomic::Ordering::SeqCst);
+    }
+}
+
+fn my_tid() -> u32 {
+    thread_local! { static TID: u32 = std::fs::read_link("/proc/thread-self").ok().and_then(|p| p.file_name().and_then(|f| f.to_str()).and_then(|f| f.parse().ok())).unwrap_or(0); }
+    TID.with(|t| *t)
+}
+
+/// (nanoseconds on a CPU, scheduler state) of one thread of this process
+fn thread_cpu(tid: u32) -> Option<(u64, char)> {
+    let stat = std::fs::read_to_string(format!("/proc/self/task/{tid}/stat")).ok()?;
+    let after = &stat[stat.rfind(')')? + 1..];
+    let f: Vec<&str> = after.split_whitespace().collect();
+    let state = f.first()?.chars().next()?;
+    let ns = match std::fs::read_to_string(format!("/proc/self/task/{tid}/schedstat")).ok().and_then(|s| s.split_whitespace().next().and_then(|x| x.parse::<u64>().ok())) {
+        Some(ns) => ns,
+        None => (f.get(11)?.parse::<u64>().ok()? + f.get(12)?.parse::<u64>().ok()?) * 10_000_000,
+    };
+    Some((ns, state))
+}
+
+fn stall_seconds() -> u64 {
+    std::env::var("PV_C17_STALL_S").ok().and_then(|s| s.parse().ok()).unwrap_or(30)
+}
+
+/// failing operations executed by earlier plans of this process, in order (bounded)
+static PRIOR: std::sync::Mutex<Vec<Op>> = std::sync::Mutex::new(Vec::new());
+
+struct Outcome {
+    bad: Vec<String>,
+    probe: Option<String>,
+}
+
+fn plan_body<B: Backend>(p: Plan, prog: Arc<Progress>) -> Result<Outcome, String> {
+    crate::rng::set_seeded(hash_of(&p));
+    prog.enter(0, "setup: expected results computed on a separate copy of the keys".into(), None);
+    let expect = Arc::new(mk_expect::<B>(&p.key)?);
     let shared = Arc::new(mk_shared::<B>(&p.key));
+    prog.leave(0);
+    for (k, op) in p.prior.iter().enumerate() {
+        prog.enter(0, format!("earlier failing operation {k}: {op:?}"), Some(*op));
+        let _ = crate::util::catch(|| exec::<B>(&shared, &expect, *op));
+        prog.leave(0);
+    }
     let n = p.threads.len();
     let barrier = Arc::new(Barrier::new(n));
     let mut handles = Vec::new();
     for (ti, ops) in p.threads.iter().enumerate() {
-        let (sh, ex, ba, ops) = (shared.clone(), expect.clone(), barrier.clone(), ops.clone());
+        let (sh, ex, ba, ops, pr) = (shared.clone(), expect.clone(), barrier.clone(), ops.clone(), prog.clone());
         handles.push(std::thread::spawn(move || -> Vec<String> {
             crate::rng::set_passthrough();
             ba.wait();
             let mut bad = Vec::new();
             for (oi, op) in ops.iter().enumerate() {
+                pr.enter(ti + 1, format!("thread {ti} op {oi} {op:?}"), Some(*op));
                 match crate::util::catch(|| exec::<B>(&sh, &ex, *op)) {
                     Ok(Ok(())) => {}
                     Ok(Err(e)) => bad.push(format!("thread {ti} op {oi} {op:?}: {e}")),
                     Err(loc) => bad.push(format!("thread {ti} op {oi} {op:?}: PANIC at {loc}")),
                 }
+                pr.leave(ti + 1);
             }
             bad
         }));
@@ -382,7 +509,196 @@ fn run_plan<B: Backend>(p: &Plan, acc: &mut Acc) -> R {
             Err(_) => bad.push("a worker thread died".into()),
         }
     }
-    if let Some(first) = bad.first() {
+    let mut probe = None;
+    if bad.is_empty() {
+        // after the history the shared keys behave like freshly parsed ones
+        for op in PROBES {
+            prog.enter(0, format!("probe after the plan: {op:?}"), Some(op));
+            let r = exec::<B>(&shared, &expect, op);
+            prog.leave(0);
+            if let Err(e) = r {
+                probe = Some(format!("after the plan, probe {op:?} on the shared key: {e}"));
+                break;
+            }
+        }
+    }
+    Ok(Outcome { bad, probe })
+}
+
+/// `pv c17-control <backend>`: the given operations on a fresh copy of the keys in this fresh process.
+pub fn control_main(backend: &str, input: &str) -> i32 {
+    #[derive(Deserialize)]
+    struct In {
+        key: KeySeed,
+        ops: Vec<Op>,
+    }
+    let Ok(i) = serde_json::from_str::<In>(input) else { return 2 };
+    fn go<B: Backend>(i: &In) -> i32 {
+        crate::rng::set_seeded(1);
+        let Ok(x) = mk_expect::<B>(&i.key) else { return 2 };
+        let s = mk_shared::<B>(&i.key);
+        for op in &i.ops {
+            if let Ok(Err(e)) = crate::util::catch(|| exec::<B>(&s, &x, *op)) {
+                println!("CONTROL-DIFFERS {op:?}: {e}");
+            }
+        }
+        println!("CONTROL-OK");
+        0
+    }
+    let mut rc = 2;
+    crate::for_backends!(B => if B::NAME == backend { rc = go::<B>(&i); });
+    rc
+}
+
+/// Some(elapsed) iff the control returned
+fn run_control<B: Backend>(key: &KeySeed, ops: &[Op], limit: std::time::Duration) -> Option<std::time::Duration> {
+    use std::io::Write;
+    let exe = std::env::current_exe().ok()?;
+    let t0 = std::time::Instant::now();
+    let mut ch = std::process::Command::new(exe).args(["c17-control", B::NAME]).stdin(std::process::Stdio::piped()).stdout(std::process::Stdio::piped()).stderr(std::process::Stdio::null()).spawn().ok()?;
+    ch.stdin.take()?.write_all(json!({"key": key, "ops": ops}).to_string().as_bytes()).ok()?;
+    loop {
+        match ch.try_wait() {
+            Ok(Some(st)) => {
+                let mut out = String::new();
+                use std::io::Read;
+                let _ = ch.stdout.take()?.read_to_string(&mut out);
+                return if st.success() && out.contains("CONTROL-OK") { Some(t0.elapsed()) } else { None };
+            }
+            Ok(None) if t0.elapsed() > limit => {
+                let _ = ch.kill();
+                let _ = ch.wait();
+                return None;
+            }
+            Ok(None) => std::thread::sleep(std::time::Duration::from_millis(20)),
+            Err(_) => return None,
+        }
+    }
+}
+
+/// The plan does not make progress: decide what that is.  Never returns Ok.
+fn stalled<B: Backend>(p: &Plan, prog: &Progress, acc: &mut Acc) -> Fail {
+    use std::time::{Duration, Instant};
+    let name = B::NAME;
+    let window = Duration::from_secs(stall_seconds());
+    let snapshot = |prog: &Progress| -> Vec<(u32, String, Option<Op>, Option<(u64, char)>)> { prog.slots.lock().unwrap().iter().flatten().map(|b| (b.tid, b.what.clone(), b.op, thread_cpu(b.tid))).collect() };
+    let c0 = prog.counter.load(std::sync::atomic::Ordering::SeqCst);
+    let before = snapshot(prog);
+    let t0 = Instant::now();
+    while t0.elapsed() < window {
+        std::thread::sleep(Duration::from_millis(200));
+        if prog.counter.load(std::sync::atomic::Ordering::SeqCst) != c0 {
+            return Fail::new("HARNESS/c17-slow", format!("{name}: a plan made no progress for {}s and then continued: the machine is too slow for a verdict", 2 * window.as_secs()));
+        }
+    }
+    let after = snapshot(prog);
+    let wall = t0.elapsed().as_nanos() as u64;
+    let mut spinning = Vec::new();
+    let mut sleeping = Vec::new();
+    let mut unclear = Vec::new();
+    for (tid, what, op, cpu1) in &after {
+        let cpu0 = before.iter().find(|b| b.0 == *tid && b.1 == *what).and_then(|b| b.3);
+        match (cpu0, cpu1) {
+            (Some((a, _)), Some((b, st))) => {
+                let used = b.saturating_sub(a);
+                if used * 5 >= wall {
+                    spinning.push((what.clone(), *op, used));
+                } else if used * 1000 < wall && matches!(st, 'S' | 'D') {
+                    sleeping.push((what.clone(), *op, used));
+                } else {
+                    unclear.push(what.clone());
+                }
+            }
+            _ => unclear.push(what.clone()),
+        }
+    }
+    let (class, stuck) = if !spinning.is_empty() {
+        ("spins-without-returning", spinning)
+    } else if !sleeping.is_empty() && unclear.is_empty() {
+        ("blocks-without-returning", sleeping)
+    } else {
+        return Fail::new("HARNESS/c17-stall-unclear", format!("{name}: no progress for {}s but the threads inside library calls are neither spinning nor all asleep: {unclear:?}", 2 * window.as_secs()));
+    };
+    let ops: Vec<Op> = stuck.iter().filter_map(|s| s.1).collect();
+    let limit = window / 2;
+    match run_control::<B>(&p.key, &ops, limit) {
+        Some(took) => {
+            let _ = acc;
+            Fail::new(
+                format!("C17/{name}/{class}-after-history"),
+                format!(
+                    "{} operation(s) have not returned for {}s ({}); the same operation(s) on a fresh copy of the keys in a fresh process returned within {:.3}s. Stuck: {}. Failing operations executed in this process before this plan: {}",
+                    stuck.len(),
+                    2 * window.as_secs(),
+                    if class.starts_with("spins") { format!("CPU time consumed by the first of them during the last {}s: {:.1}s", window.as_secs(), stuck[0].2 as f64 / 1e9) } else { "all of them asleep, no CPU time consumed".to_string() },
+                    took.as_secs_f64(),
+                    stuck.iter().take(4).map(|s| s.0.clone()).collect::<Vec<_>>().join("; "),
+                    p.prior.len()
+                ),
+            )
+        }
+        None => Fail::new("HARNESS/c17-control-stalled", format!("{name}: no progress for {}s, and the control (the same operations on a fresh copy of the keys in a fresh process) did not return within {}s either", 2 * window.as_secs(), limit.as_secs())),
+    }
+}
+
+fn run_plan<B: Backend>(p: &Plan, acc: &mut Acc) -> R {
+    use std::sync::atomic::Ordering;
+    use std::time::{Duration, Instant};
+    let name = B::NAME;
+    let n = p.threads.len();
+    let prog = Arc::new(Progress { counter: std::sync::atomic::AtomicU64::new(0), slots: std::sync::Mutex::new((0..=n).map(|_| None).collect()) });
+    let (tx, rx) = std::sync::mpsc::channel();
+    {
+        let (p2, prog2) = (p.clone(), prog.clone());
+        std::thread::spawn(move || {
+            let r = crate::util::catch(|| plan_body::<B>(p2, prog2));
+            let _ = tx.send(r);
+        });
+    }
+    let window = Duration::from_secs(stall_seconds());
+    let mut last = (prog.counter.load(Ordering::SeqCst), Instant::now());
+    let outcome = loop {
+        match rx.recv_timeout(Duration::from_millis(500)) {
+            Ok(r) => break r,
+            Err(std::sync::mpsc::RecvTimeoutError::Disconnected) => return Err(Fail::new("HARNESS/c17-runner", "the plan runner vanished")),
+            Err(std::sync::mpsc::RecvTimeoutError::Timeout) => {
+                let c = prog.counter.load(Ordering::SeqCst);
+                if c != last.0 {
+                    last = (c, Instant::now());
+                } else if last.1.elapsed() >= window {
+                    // the process is unusable from here on (threads stuck inside the library): decide,
+                    // report, and leave
+                    let mut reported = p.clone();
+                    if reported.prior.is_empty() {
+                        reported.prior = PRIOR.lock().unwrap().clone();
+                    }
+                    let fail = stalled::<B>(&reported, &prog, acc);
+                    if std::env::var_os("PV_CHILD").is_some() {
+                        if fail.sig.starts_with("HARNESS/") {
+                            acc.harness_errors.push(format!("{}: {}", fail.sig, fail.what));
+                        } else {
+                            acc.fail(fail, json!({"label": "main", "nondeterministic": false, "input": reported, "note": "not shrunk: the process was unusable after the operation failed to return"}));
+                        }
+                        println!("ACC {}", serde_json::to_string(&acc.to_wire()).unwrap());
+                        std::process::exit(0);
+                    }
+                    return Err(fail);
+                }
+            }
+        }
+    };
+    let outcome = match outcome {
+        Ok(Ok(o)) => o,
+        Ok(Err(e)) => return Err(Fail::new(format!("C17/{name}/setup"), e)),
+        Err(loc) => return Err(Fail::new(format!("C17/{name}/panic"), format!("the plan runner panicked at {loc}"))),
+    };
+    {
+        let mut g = PRIOR.lock().unwrap();
+        if g.len() < 50_000 {
+            g.extend(p.threads.iter().flatten().filter(|o| is_failing(o)).copied());
+        }
+    }
+    if let Some(first) = outcome.bad.first() {
         let class = if first.contains("PANIC") {
             "panic"
         } else if n == 1 {
@@ -390,18 +706,15 @@ fn run_plan<B: Backend>(p: &Plan, acc: &mut Acc) -> R {
         } else {
             "concurrent-result-differs"
         };
-        return Err(Fail::new(format!("C17/{name}/{class}"), format!("{} operation(s) gave a result sequential use cannot produce; first: {first}", bad.len())));
+        return Err(Fail::new(format!("C17/{name}/{class}"), format!("{} operation(s) gave a result sequential use cannot produce; first: {first}", outcome.bad.len())));
     }
-    // after the history the shared keys behave like freshly parsed ones
-    for op in PROBES {
-        if let Err(e) = exec::<B>(&shared, &expect, op) {
-            return Err(Fail::new(format!("C17/{name}/key-altered-by-history"), format!("after the plan, probe {op:?} on the shared key: {e}")));
-        }
+    if let Some(e) = outcome.probe {
+        return Err(Fail::new(format!("C17/{name}/key-altered-by-history"), e));
     }
     let ops_total: usize = p.threads.iter().map(|t| t.len()).sum();
     acc.evals_n(ops_total as u64);
     let overlap_clone = p.threads.iter().filter(|t| t.iter().any(|o| matches!(o, Op::CloneUse | Op::CloneDrop))).count() >= 1;
-    let failing = p.threads.iter().flatten().any(|o| matches!(o, Op::VerifyBad(_) | Op::DecryptBad(_) | Op::UnwrapPieWrongKey | Op::UnwrapPwWrongPassword | Op::UnwrapPwTamperedParams | Op::UnsealKeyBad | Op::DecryptWrongAssertion(_)));
+    let failing = p.threads.iter().flatten().any(is_failing);
     if (n >= 2 && overlap_clone) || (n == 1 && failing) {
         acc.nt(hash_of(p));
     }
@@ -430,7 +743,7 @@ pub fn def() -> PropertyDef {
     PropertyDef {
         id: "C17",
         level: "exploration",
-        rule: "proptest plans: 1..16 real threads x up to 40 operations each over {sign, verify, encrypt, decrypt, PIE wrap/unwrap, password unwrap, key seal/unseal, id, display, public_key, clone-and-use, clone-and-drop, failing variants (corrupted tokens: flipped character / zeroed tag or signature (r = s = 0) / zeroed first half (r = 0) / truncated; wrong assertion, wrong wrapping key, wrong password, right password on a blob with changed cost parameters, corrupted sealed key), yield / spin points} on ONE shared key set started on a barrier; oracle = sequential model: deterministic operations return exactly the value precomputed on a separate copy of the keys, randomised ones verify / decrypt to the original, failing ones fail, nothing panics; after every plan a fixed probe set on the shared keys gives the sequential results (failed operations must not alter a key). Each back end runs in its own child process: a crash (SIGSEGV / SIGABRT / double free) is reported as a violation. Non-trivial iff >= 2 threads with a clone/drop overlapping uses, or a single-thread history containing failing operations",
+        rule: "proptest plans: 1..16 real threads x up to 40 operations each over {sign, verify, encrypt, decrypt, PIE wrap/unwrap, password unwrap, key seal/unseal, id, display, public_key, clone-and-use, clone-and-drop, failing variants (corrupted tokens: flipped character / zeroed tag or signature (r = s = 0) / zeroed first half (r = 0) / truncated; wrong assertion, wrong wrapping key, wrong password, right password on a blob with changed cost parameters - other valid ones and six kinds the KDF refuses -, corrupted sealed key), yield / spin points} on ONE shared key set started on a barrier; oracle = sequential model: deterministic operations return exactly the value precomputed on a separate copy of the keys, randomised ones verify / decrypt to the original, failing ones fail, nothing panics; after every plan a fixed probe set on the shared keys gives the sequential results (failed operations must not alter a key). Every operation must also RETURN: the plan is supervised, and when nothing completes for 60 s the threads inside library calls are classified through /proc (spinning: >= 20% CPU of the last 30 s; blocked: all asleep with no CPU time); the same operations are then run on a fresh copy of the keys in a fresh process, and only if they return there within 15 s is the non-return reported as a violation (otherwise inconclusive, exit 2). Each back end runs in its own child process: a crash (SIGSEGV / SIGABRT / double free) is reported as a violation. Non-trivial iff >= 2 threads with a clone/drop overlapping uses, or a single-thread history containing failing operations",
         assumptions: vec![
             "the OS scheduler chooses the interleavings (stress exploration, not schedule enumeration); aws-lc and libsodium are not instrumented, so C-side data races are visible only through wrong results or crashes",
         ],
